@@ -35,14 +35,14 @@ def run(ctx):
         parts = l.split("\t")
         if parts[0] == "SPEC" and len(parts) == 6:
             specs.append(parts[1:])
-        elif len(parts) == 3:
-            cases.append(tuple(parts))
+        elif len(parts) in (3, 4):
+            cases.append(tuple(parts[:3]) + (parts[3] if len(parts) == 4 else "",))
     if len(cases) < 1000:
         raise verif.CheckError("harness produced only %d correspondence cases" % len(cases))
 
     panics = [c for c in cases if "PANIC" in c[2]]
     for c in panics[:10]:
-        ctx.violation("c12:panic:" + c[1].split(" ")[0] + ":" + c[1][:120], "built-in panics", {"request": c[1], "real": c[2]})
+        ctx.violation("c12:panic:" + c[1].split(" ")[0] + ":" + c[1][:120], "built-in panics", {"replay": "jaq -nc '%s'" % c[3], "request": c[1], "real": c[2]})
     cases = [c for c in cases if "PANIC" not in c[2]]
 
     # the model declares some transpose rows outside its scope
@@ -50,7 +50,7 @@ def run(ctx):
     ans = ctx.model(reqs)
     bad = unmodelled = 0
     kinds = {}
-    for (cid, req, real), m in zip(cases, ans):
+    for (cid, req, real, human), m in zip(cases, ans):
         op = req.split(" ")[0] + (":" + req.split(" ")[1] if req.startswith(("c12.keyed", "c12.round ", "c12.is ", "c12.totype")) else "")
         kinds[op] = kinds.get(op, 0) + 1
         if m == "unmodelled":
@@ -61,7 +61,7 @@ def run(ctx):
             if bad <= 25:
                 ctx.violation("c12-corr:" + op + ":" + _short(req, 200),
                               "real code and proved impl-model disagree on `%s`" % _short(req, 120),
-                              {"case_id": cid, "request": req, "real": real, "model": m},
+                              {"case_id": cid, "replay": "jaq -nc '%s'" % human, "request": req, "real": real, "model": m},
                               broken=["correspondence " + op])
     ctx.log("correspondence: %d cases, %d disagreements, %d outside the model, %d panics" % (len(cases), bad, unmodelled, len(panics)))
 
